@@ -310,7 +310,7 @@ RULES = [
 ]
 
 MUTANTS = [
-    Mutant("recreated-step-keeps-output-edges", "step.py", in_function("Step.initialize_row", replace_once('        self.db.execute("DELETE FROM dependency WHERE source = :node", {"node": self.i})\n', "")), ("R-C01-9",)),
+    Mutant("recreated-step-keeps-output-edges", "step.py", in_function("Step.initialize_row", replace_once("        self.del_all_sinks()\n", "")), ("R-C01-9",)),
     Mutant("recycle-ignores-new-overrides", "step.py", in_function("Step.after_recycle", replace_once("state == StepState.SUCCEEDED and (self.get_hash() is None or hashed_args_changed)", "state == StepState.SUCCEEDED and self.get_hash() is None")), ("R-C01-9",)),
     Mutant("lost-product-one-level", "step.py", in_function("Step.after_lost_product", replace_once("creator.after_lost_product()", "creator.delete_hash()")), ("R-C01-5",)),
     Mutant("consumers-attached-only", "workflow.py", in_function("Workflow.mark_consuming_steps_pending", replace_once("file.sinks(Step, include_detached=True)", "file.sinks(Step)")), ("R-C01-1",)),
